@@ -1841,3 +1841,117 @@ func init() {
 	registry["C18"].Meta.Rules["C18.11"] = "a query does not hand out live state: in a method that takes its receiver's mutex, a map or slice field whose content other methods write is not returned as it is, neither directly nor as a field of the returned struct - what leaves the method is a copy made under the lock (a snapshot holding the collector's own map is iterated by the caller while the monitor goroutine writes to it)"
 	registry["C18"].Rules = append(registry["C18"].Rules, func(c *Ctx, r *Result) { liveReferenceEscapeRule(c, r, "C18.11", 5) })
 }
+
+// ---- read-modify-write within one hold of the lock (C18.12) ----
+//
+// A guarded field that is assigned, under the lock, a value computed from a snapshot taken through a locking accessor of the same
+// object (stats := sr.GetStats(); ...; sr.mu.Lock(); sr.stats = stats) was read under an earlier hold: whatever another
+// goroutine stored in between is overwritten. The rule reports a store to a receiver field under the lock whose value depends
+// on the result of a method of the same receiver that takes the same mutex.
+func rmwOneHoldRule(c *Ctx, r *Result, rule string, floor int) {
+	n := 0
+	for _, fn := range c.LibFuncs() {
+		pk := shortPkg(fnPkgPath(fn))
+		if pk != "rebalancing" && pk != "structures" && pk != "hdf5" && pk != "writer" {
+			continue
+		}
+		if fn.Signature.Recv() == nil || len(fn.Params) == 0 {
+			continue
+		}
+		recv := fn.Params[0]
+		var li *lockInfo
+		instrs(fn, func(in ssa.Instruction) {
+			st, ok := in.(*ssa.Store)
+			if !ok {
+				return
+			}
+			fa, ok := st.Addr.(*ssa.FieldAddr)
+			if !ok || fa.X != ssa.Value(recv) {
+				return
+			}
+			if li == nil {
+				li = LocksIn(fn, lockSet{})
+			}
+			if len(li.at[st]) == 0 {
+				return
+			}
+			f, base := fieldOfAddr(fa)
+			if f == nil {
+				return
+			}
+			n++
+			// dependencies of the stored value
+			bad := ""
+			seen := map[ssa.Value]bool{}
+			var walk func(v ssa.Value, d int)
+			walk = func(v ssa.Value, d int) {
+				if v == nil || seen[v] || bad != "" || d > 14 {
+					return
+				}
+				seen[v] = true
+				switch x := v.(type) {
+				case *ssa.Call:
+					g := x.Call.StaticCallee()
+					if g != nil && g.Signature.Recv() != nil && len(x.Call.Args) > 0 && x.Call.Args[0] == ssa.Value(recv) && len(c.acquiresOwnMutex(g, 0)) > 0 {
+						bad = c.Name(g) + " at " + c.InstrPos(x)
+					}
+				case *ssa.UnOp:
+					if a, isA := x.X.(*ssa.Alloc); isA && x.Op == token.MUL {
+						// a local: everything stored into it or into its fields
+						for _, ref := range *a.Referrers() {
+							switch y := ref.(type) {
+							case *ssa.Store:
+								if y.Addr == ssa.Value(a) {
+									walk(y.Val, d+1)
+								}
+							case *ssa.FieldAddr:
+								for _, r2 := range *y.Referrers() {
+									if s2, isS := r2.(*ssa.Store); isS && s2.Addr == ssa.Value(y) {
+										walk(s2.Val, d+1)
+									}
+								}
+							}
+						}
+						return
+					}
+					if fa2, isFA := x.X.(*ssa.FieldAddr); isFA && x.Op == token.MUL {
+						if a, isA := fa2.X.(*ssa.Alloc); isA {
+							for _, ref := range *a.Referrers() {
+								if s2, isS := ref.(*ssa.Store); isS && s2.Addr == ssa.Value(a) {
+									walk(s2.Val, d+1)
+								}
+							}
+						}
+						return
+					}
+					walk(x.X, d+1)
+				case *ssa.BinOp:
+					walk(x.X, d+1)
+					walk(x.Y, d+1)
+				case *ssa.Convert:
+					walk(x.X, d+1)
+				case *ssa.ChangeType:
+					walk(x.X, d+1)
+				case *ssa.Phi:
+					for _, e := range x.Edges {
+						walk(e, d+1)
+					}
+				case *ssa.Extract:
+					walk(x.Tuple, d+1)
+				case *ssa.Field:
+					walk(x.X, d+1)
+				}
+			}
+			walk(st.Val, 0)
+			r.Check(bad == "", rule, c.Name(fn)+"#"+fieldKey(base.Type(), f)+"#updated-from-state-read-in-the-same-hold", c.InstrPos(st), "the value stored under the lock does not come from a snapshot taken through a locking accessor"+map[bool]string{true: "", false: " (it depends on " + bad + ", which took and released the mutex before: an update another goroutine made in between is overwritten)"}[bad == ""])
+		})
+	}
+	if n < floor {
+		r.Shortfall(c, rule, fmt.Sprintf("%s: only %d stores to receiver fields under a lock (expected >= %d)", rule, n, floor))
+	}
+}
+
+func init() {
+	registry["C18"].Meta.Rules["C18.12"] = "a guarded field is updated from what is read in the same hold of the lock: no store to a receiver field under the mutex takes a value computed from the result of a method of the same receiver that acquires that mutex itself (stats := sr.GetStats(); ...; Lock; sr.stats = stats loses the evaluation another goroutine counted in between)"
+	registry["C18"].Rules = append(registry["C18"].Rules, func(c *Ctx, r *Result) { rmwOneHoldRule(c, r, "C18.12", 20) })
+}
